@@ -59,7 +59,7 @@ fn weight_interval(su: &Setup) -> Option<(f64, f64)> {
 /// Deterministic catalogue of configurations with closed-form values; `idx` selects the
 /// family, the parameters come from `rng`.
 pub fn make_config(rng: &mut Rng, idx: usize, allow_small_omega: bool) -> Option<Vec<Config>> {
-    let family = idx % 10;
+    let family = idx % 11;
     let mut out = vec![];
     let build = |g: GraphSpec, label: String, rng: &mut Rng, delta: Vec<f64>, exact_ln: f64, kin_fix: &dyn Fn(&mut Kin, &mut Rng)| -> Option<Vec<Config>> {
         let mut v = vec![];
@@ -74,6 +74,15 @@ pub fn make_config(rng: &mut Rng, idx: usize, allow_small_omega: bool) -> Option
         };
         if g.ne() > 1 && min_sub < 0.35 {
             return None;
+        }
+        // weights are bounded by (N_T/c_min)^dod ... C_sum^-dod: for a large overall dod that range
+        // spans many orders of magnitude and the sample mean is dominated by rare huge weights
+        // long before the central limit theorem applies. Keep dod <= 3.5.
+        {
+            let go = GO::new(&g);
+            if qf(&go.dod()) > 3.5 {
+                return None;
+            }
         }
         // loop-momentum offsets only where every edge is massive (bounded cancellation ratio)
         let offs: i64 = if g.massive.iter().all(|m| *m) { 8 } else { 0 };
@@ -295,6 +304,41 @@ pub fn make_config(rng: &mut Rng, idx: usize, allow_small_omega: bool) -> Option
                 out.push(c);
             }
         }
+        10 => {
+            // vertex product: general massive bubble (quadrature) with one or two massive tadpoles
+            // attached to one of its vertices: 2-3 loops, masses, external momentum, factorising integral
+            let d = 1 + rng.below(6);
+            let dh = d as f64 / 2.0;
+            let nt = 1 + rng.below(2);
+            let (mut a, mut b);
+            loop {
+                a = d8(rng, 0.4, 3.0);
+                b = d8(rng, 0.4, 3.0);
+                if a + b > dh + 0.4 {
+                    break;
+                }
+            }
+            let wt: Vec<f64> = (0..nt).map(|_| dh + d8(rng, 0.4, 1.5)).collect();
+            let mut weights = vec![a, b];
+            weights.extend(wt.iter());
+            let mut edges = vec![(0u8, 1u8), (1, 0)];
+            edges.extend((0..nt).map(|_| (1u8, 1u8)));
+            let mut delta = vec![*rng.pick(&[0.0, 0.5]), 0.0];
+            delta.extend((0..nt).map(|_| *rng.pick(&[0.0, 1.0])));
+            let g = GraphSpec { edges, weights: weights.clone(), massive: vec![true; 2 + nt], externals: vec![0, 1], d };
+            let label = format!("bubble_times_tadpoles(D={},w={:?},delta={:?})", d, weights, delta);
+            let cfgs = build(g, label, rng, delta.clone(), 0.0, &|_k: &mut Kin, _r: &mut Rng| {})?;
+            for mut c in cfgs {
+                let p2: f64 = c.su.kin.ext_mom[0].iter().map(|x| x * x).sum();
+                let ms: Vec<f64> = c.su.kin.masses.iter().map(|m| m.unwrap()).collect();
+                let mut val = crate::special::bubble_quadrature(d, a + delta[0], b + delta[1], ms[0], ms[1], p2.sqrt());
+                for t in 0..nt {
+                    val *= ln_tadpole(d as f64, wt[t] + delta[2 + t], ms[2 + t]).exp();
+                }
+                c.exact = val;
+                out.push(c);
+            }
+        }
         _ => {
             // massive bubble with unit weights, D = 1 or 3
             let d = if rng.chance(0.5) { 1 } else { 3 };
@@ -405,6 +449,8 @@ pub struct Tally {
     pub rescued: u64,
     pub unrescued: u64,
     pub unrescued_example: Option<Value>,
+    pub max_val: f64,
+    pub sum_val: f64,
 }
 
 /// run `n_batches` batches of `per_batch` samples
@@ -465,13 +511,17 @@ fn run_batches(c: &Config, seed: u64, stream: u64, n_batches: usize, per_batch: 
                             val = 0.0;
                         }
                     }
-                    let t = sum + val;
-                    if sum.abs() >= val.abs() {
-                        comp += (sum - t) + val;
-                    } else {
-                        comp += (val - t) + sum;
+                    if val > t.max_val {
+                        t.max_val = val;
                     }
-                    sum = t;
+                    t.sum_val += val;
+                    let tt = sum + val;
+                    if sum.abs() >= val.abs() {
+                        comp += (sum - tt) + val;
+                    } else {
+                        comp += (val - tt) + sum;
+                    }
+                    sum = tt;
                 }
                 Outcome::Err(e) => {
                     if e.starts_with("Gamma") {
@@ -496,6 +546,8 @@ fn merge(a: &mut Tally, b: Tally) {
     a.panics += b.panics;
     a.rescued += b.rescued;
     a.unrescued += b.unrescued;
+    a.max_val = a.max_val.max(b.max_val);
+    a.sum_val += b.sum_val;
     if a.unrescued_example.is_none() {
         a.unrescued_example = b.unrescued_example;
     }
@@ -529,7 +581,7 @@ pub fn run(ctx: &Ctx) -> i32 {
         out(&format!("INCONCLUSIVE property=C01 quadrature oracle self-test failed: {:e}", qerr));
         return inconclusive_exit();
     }
-    let n_cfg_idx = ctx.n(30, 100);
+    let n_cfg_idx = ctx.n(33, 110);
     let n1: usize = ctx.n(400_000, 6_000_000);
     let batches = 64usize;
     // build the catalogue (deterministic in the seed)
@@ -636,7 +688,7 @@ pub fn run(ctx: &Ctx) -> i32 {
         acc.add("sampling_errors_matrix", tot.errs_matrix);
         let row = json!({"config": c.label, "D": c.su.g.d, "loops": c.su.loops, "omega": c.su.omega, "min_sub_omega": c.min_sub_omega, "exact": c.exact, "estimate": mean, "standard_error": se,
                          "z_raw": z_raw, "z_after_bounded_uncertainty": z, "bounded_uncertainty": unc, "stage": stage_no,
-                         "samples": tot.n, "gamma_errors": tot.errs_gamma, "matrix_errors": tot.errs_matrix, "panics": tot.panics, "rescued_in_double_double": tot.rescued, "unresolved": tot.unrescued});
+                         "samples": tot.n, "gamma_errors": tot.errs_gamma, "matrix_errors": tot.errs_matrix, "panics": tot.panics, "rescued_in_double_double": tot.rescued, "unresolved": tot.unrescued, "largest_single_sample_share_of_sum": if tot.sum_val > 0.0 { tot.max_val / tot.sum_val } else { 0.0 }});
         report.push(row.clone());
         if report.len() <= 3 {
             acc.sample(row.clone());
@@ -655,7 +707,14 @@ pub fn run(ctx: &Ctx) -> i32 {
             inconclusive_cfgs += 1;
             acc.count("configs_inconclusive(unresolved_points_dominate)");
         }
-        if stage_no == 3 {
+        // heavy-tail diagnostic: if a single sample carries more than 1% of the whole sum, the batch
+        // means are not Gaussian yet and z is not trustworthy
+        let tail_share = if tot.sum_val > 0.0 { tot.max_val / tot.sum_val } else { 0.0 };
+        acc.max("largest_single_sample_share_of_sum", tail_share);
+        if stage_no == 3 && z > 5.0 && tail_share > 0.01 {
+            inconclusive_cfgs += 1;
+            acc.count("configs_inconclusive(heavy_tail:one_sample>1%_of_sum)");
+        } else if stage_no == 3 {
             if z > 6.0 {
                 acc.violate(ci as u64, "biased_estimate", "mc:biased", detail);
             } else if z >= 5.0 {
@@ -666,7 +725,7 @@ pub fn run(ctx: &Ctx) -> i32 {
     }
     let mut fin = Finish::new(
         "catalogue of configurations with independently known integrals (rose of massive tadpoles with shifts and arbitrary unimodular routings; massless bubble; massless 3- and 4-line bananas; chain of two bubbles; 2-loop vacuum sunrise with one massive line; massive unit-weight bubble in D=1,3; \
-         general massive one-loop two-point function for any D, weights and masses by momentum-space tanh-sinh quadrature; massive 2-5 line banana in D=1 with 1-4 loops), D=1..6, dyadic weights, \
+         general massive one-loop two-point function for any D, weights and masses by momentum-space tanh-sinh quadrature; massive 2-5 line banana in D=1 with 1-4 loops; general bubble times one or two massive tadpoles), D=1..6, dyadic weights, \
          each under two different routings; bounded test functions prod_e (q_e^2+m_e^2)^(-delta_e) on massive lines (closed form at shifted weights). N calls of generate_sample_from_rng in 64 batches; errors contribute 0 and are counted (fraction > 1e-5 is a failure); \
          non-finite or out-of-interval weights are re-evaluated at the same point in double-double. Sequential rule: |z|<4 at N1, else |z|<5 at 8 N1, else violation iff |z|>6 at 64 N1. distinct = distinct configurations",
     )
